@@ -46,7 +46,9 @@ CHECKS = {
              "library uses with W below, at (+-0.0) and above zero; evidence lists per rest-of-window spec every position in which it is exercised "
              "(window_consuming_positions); constructor options are swept one at a time plus interacting pairs; QuantizedFloat is swept over the tri-state zero_median "
              "option x symmetric / asymmetric / nearly symmetric ranges x U8/S8/U16/S16 against an independent reference dequantiser that takes an explicit "
-             "zero_median=False literally.",
+             "zero_median=False literally. Template / Dataclass-pod dict values are additionally written with absent OPTIONAL members left out of the dict instead of "
+             "spelled None, at every nesting depth (same bytes, read-back and framing required); Dataclass trees include a serializable dataclass extending "
+             "another, with the two specs built base-first and derived-first in the same process.",
         note="Domains are boundary alphabets and covering rows, not full cross products; n-ary and depth-2 compositions use an 8-/4-leaf basis; ambiguous values "
              "(trailing NUL in Str, embedded terminators, empty payloads under IfPresent/greedy/empty_is_none, duplicate dict keys) are out of domain; "
              "NumPy/LLSD/Forward/FHReader specs are not in the grammar; quantiser saturation is C10's; for quantised-float leaves -0.0 and +0.0 count as equal values and "
